@@ -256,8 +256,11 @@ class Run:
                 else:
                     bounded_fail_inputs.append((b, f))
         # contracts whose function disappeared
-        for k in unused:
-            if k in base["functions"]:
+        present = set(f["func"] for f in funcs)
+        for k in sorted(set(unused)):
+            # (a contract file may be loaded by several govc runs of one check; the function counts as missing only if
+            # none of them found it)
+            if k in base["functions"] and k not in present:
                 degraded.append("contract for %s no longer matches a function (renamed or removed): decided by the bounded stand-in only" % k)
         for f in funcs:
             key = f["func"]
